@@ -102,7 +102,7 @@ def check_computed(desc, cfg, stock, pre):
 
 class Balance(Facet):
     name = "balance"
-    examples = {"quick": 12000, "thorough": 600000}
+    examples = {"quick": 12000, "thorough": 360000}
     shards = {"quick": 16, "thorough": 16}
 
     def strategy(self, tier):
